@@ -158,7 +158,21 @@ func ordOf(desc bool) fp.Ord[int] {
 
 // allOps lists the abstract stage kinds.
 var allOps = []string{"map", "filter", "filterMap", "flatMap", "take", "drop", "takeWhile", "dropWhile", "spanBoth", "partBoth",
-	"prepend", "append", "zipIdx", "zip", "zip3", "scan", "tap", "reverse", "sort", "pull", "hop"}
+	"prepend", "append", "zipIdx", "zip", "zip3", "scan", "tap", "reverse", "sort", "pull", "hop", "selfZip", "selfZip3", "selfCombine"}
+
+// selfOp: stages that use ONE lazy list several times as an operand of one combinator, at
+// different offsets (list.Zip(l.Tail(), l), list.Zip3(l, l.Tail(), l.Tail().Tail()),
+// list.Combine(l, l.Tail())). They exist in the list world only; the other worlds hop there.
+func selfOp(op string) bool { return op == "selfZip" || op == "selfZip3" || op == "selfCombine" }
+
+// tailN takes Tail() n times. Tail() of an empty list is an empty list for every List of the
+// library (list.Zip itself relies on that for operands of different lengths).
+func tailN(l fp.List[int], n int) fp.List[int] {
+	for i := 0; i < n; i++ {
+		l = l.Tail()
+	}
+	return l
+}
 
 // nVariants is an upper bound of the realisation variants of any (op, world).
 const nVariants = 4
@@ -171,6 +185,9 @@ func plan(sp stageSpec, world int, e *env) []step {
 	}
 	switch world {
 	case wIter:
+		if selfOp(sp.Op) {
+			return append([]step{hop(wIter, wList, v)}, planList(sp, v/2, e)...)
+		}
 		return planIter(sp, v, e)
 	case wList:
 		if st := planList(sp, v, e); st != nil {
@@ -184,6 +201,9 @@ func plan(sp stageSpec, world int, e *env) []step {
 		}
 		return out
 	default:
+		if selfOp(sp.Op) {
+			return append([]step{hop(wSeq, wList, v)}, planList(sp, v/3, e)...)
+		}
 		if st := planSeq(sp, v, e); st != nil {
 			return st
 		}
@@ -540,6 +560,35 @@ func planList(sp stageSpec, v int, e *env) []step {
 			to = wSeq
 		}
 		return []step{hop(wList, to, v)}
+	case "selfZip":
+		j := 1 + abs(sp.A)%3
+		f := func(w []int) int { return mix(w[len(w)-1], w[0]) }
+		m := func(up ir.P) ir.P { return ir.Window(up, j, f) }
+		sl := func(xs []int) []int { return ir.WindowS(xs, j, f) }
+		if v%2 == 0 {
+			return []step{liStep("list.Zip(l.Tail,l)", 2, false, func(l fp.List[int]) fp.List[int] {
+				return list.Map(list.Zip(tailN(l, j), l), func(t fp.Tuple2[int, int]) int { return mix(t.I1, t.I2) })
+			}, m, sl)}
+		}
+		return []step{liStep("list.Zip(l,l.Tail)", 2, false, func(l fp.List[int]) fp.List[int] {
+			return list.Map(list.Zip(l, tailN(l, j)), func(t fp.Tuple2[int, int]) int { return mix(t.I2, t.I1) })
+		}, m, sl)}
+	case "selfZip3":
+		f := func(w []int) int { return mix(w[0], mix(w[1], w[2])) }
+		m := func(up ir.P) ir.P { return ir.Window(up, 2, f) }
+		sl := func(xs []int) []int { return ir.WindowS(xs, 2, f) }
+		if v%2 == 0 {
+			return []step{liStep("list.Zip3(l,l.Tail,l.Tail.Tail)", 2, false, func(l fp.List[int]) fp.List[int] {
+				return list.Map(list.Zip3(l, l.Tail(), l.Tail().Tail()), func(t fp.Tuple3[int, int, int]) int { return mix(t.I1, mix(t.I2, t.I3)) })
+			}, m, sl)}
+		}
+		return []step{liStep("list.Zip3(l.Tail.Tail,l,l.Tail)", 2, false, func(l fp.List[int]) fp.List[int] {
+			return list.Map(list.Zip3(tailN(l, 2), l, tailN(l, 1)), func(t fp.Tuple3[int, int, int]) int { return mix(t.I2, mix(t.I3, t.I1)) })
+		}, m, sl)}
+	case "selfCombine":
+		j := abs(sp.A) % 3
+		return []step{liStep("list.Combine(l,l.Tail)", 1, true, func(l fp.List[int]) fp.List[int] { return list.Combine(l, tailN(l, j)) },
+			func(up ir.P) ir.P { return ir.SelfConcat(up, j) }, func(xs []int) []int { return ir.SelfConcatS(xs, j) })}
 	}
 	return nil
 }
